@@ -331,7 +331,7 @@ func c20RunTrampoline(kd, ke, mode int, input []int) string {
 		res := make([]int, 0, len(s)+1)
 		res = append(res, c+1)
 		for i := 1; i < len(s); i++ {
-			res = append(res, 3*s[i]+c)
+			res = append(res, (3*s[i]+c)%1009)
 		}
 		done := c+1 >= kd || (mode == 1 && isErr)
 		if isErr {
@@ -656,14 +656,14 @@ func (h *c20Heap) atom(s string) interface{} {
 			if p, ok := h.p0[addr]; ok {
 				return p
 			}
-			p := &c20S0{addr}
+			p := &c20S0{addr / 10}
 			h.p0[addr] = p
 			return p
 		}
 		if p, ok := h.p1[addr]; ok {
 			return p
 		}
-		p := &c20S1{addr}
+		p := &c20S1{addr / 10}
 		h.p1[addr] = p
 		return p
 	case parts[0] == "sl" && len(parts) == 2:
